@@ -22,6 +22,12 @@ CHECKS = {
  "C12": (True, MC, "exhaustive exploration of environment answers (hash keys via an in-binary getrandom, directory order via an in-binary readdir64), registration orders and call histories on the real library",
          "For every accepted repository input and generated WSDLs with 2-4 operations: 256 (thorough 4096) hash seeds x all registration orders of the file set x call histories R.W, R.W.W, R.R, R.R.R, RW.RW on one input object x all directory enumeration orders through utils::read_input_file_and_xsd_files_at_path, plus genuinely fresh processes; every output must be byte-identical to the canonical one. A same-seed-twice self-test guards the harness's own determinism.",
          "Hash seeds are a finite sweep (the evidence reports how many of the k! orders of a k-key canary map they realise: all for k<=3, 22-24 of 24 for k=4). The interposers rely on std binding getrandom/readdir64 to the symbols defined in the harness executable (checked by a self-test on every run).", "4/C12"),
+ "C13": (True, MC, "deviation-bounded exhaustive mutation of valid documents plus all short token documents, each run on the real library in supervised worker processes",
+         "Every single structural mutation (delete/duplicate/move/swap element, delete/empty/alter attribute, retarget every QName attribute to every declared name, to itself, to an undeclared prefix, to a dangling name, rename to an existing name, truncate at every tag boundary, replace the root) of 19 seed inputs (27 k cases), all token documents of <=3 (thorough 4) tokens over an 11-token XSD alphabet and raw non-XML texts are run through read_xml/write_xml; the only admissible outcomes are Ok and Err within the time limit: a panic, a death by signal (stack overflow) or a timeout is a violation, recorded with the panic location. Thorough adds all mutation pairs of the generated seeds and signature-reduced mutations of the large inputs.",
+         "'All UTF-8 strings' is unbounded; decided is the <=1 (thorough <=2) deviation neighbourhood of the seeds and the short token documents. Time limit 10 s + 1 s per 100 kB. One open known finding (20000-deep nesting overflows roxmltree's recursive tokenizer).", "4/C13"),
+ "C17": (True, FE, "complete enumeration of the CLI configuration x failure-stage matrix, one real process run per row",
+         "The real zeep binary (rebuilt from /repo/zeep) is run for the complete product of 9 input outcomes (3 succeeding; failing at: missing input, non-UTF-8 sibling, malformed XML, unresolved import, unresolved reference, unsupported binding) x 5 path spellings x explicit/default output path x pre-existing output {absent, shorter, longer with a sentinel tail} = 270 rows; success rows must exit 0 with exactly the library's bytes, failure rows must exit non-zero and leave the pre-existing output byte-for-byte unchanged.",
+         "Failure stages are those reachable through file contents and paths; a failure while writing the output file itself (disk full) is not injected at the CLI level (C15 covers the writer).", "4/C17"),
 }
 
 NOT_YET = {
